@@ -12,8 +12,7 @@ import (
 
 // Known generator defects of the current tree are excluded by construction unless
 // Allow.* is set (pinned cases exercise them separately):
-//   - fixed arrays of byte / unsigned byte / enum element type (non-compiling output)
-//   - arrays whose element struct lives in another module (missing import)
+//   - fixed arrays of byte / unsigned byte element type (non-compiling output)
 //   - parameter names colliding with identifiers used by the templates / Go keywords
 type Allow struct {
 	OptionalByteNoDefault bool // `optional byte b;` without default (typeDef gap)
@@ -68,13 +67,21 @@ func refModule(ref string) string {
 	return ref
 }
 
-// arrayElemOK: element types for which the current generator is expected to work.
+// arrayElemOK: element types generated for fixed arrays. Excluded:
+//   - byte / unsigned byte elements: the generator emits non-compiling simple-list code
+//     for them (known finding, pinned in C16);
+//   - struct-containing elements: what the unset elements of a partially/never transmitted
+//     array of structs should be (Go zero value vs. the element struct's IDL defaults) is
+//     not defined by the property; keeping them out keeps the "absent => default" oracle
+//     unambiguous.
 func (g *genCtx) arrayElemOK(t *rc.TypeJ) bool {
 	switch t.K {
-	case "byte", "unsigned byte", "enum":
+	case "byte", "unsigned byte", "struct":
 		return false
-	case "struct":
-		return refModule(t.Ref) == g.curMod
+	case "vector":
+		return g.arrayElemOK(t.Elem) || t.Elem.K == "byte" || t.Elem.K == "unsigned byte"
+	case "map":
+		return g.arrayElemOK(t.Elem) || t.Elem.K == "byte" || t.Elem.K == "unsigned byte"
 	}
 	return true
 }
